@@ -259,6 +259,20 @@ impl SharedSink {
             ..Default::default()
         })))
     }
+    /// A sink whose write-acceptance pattern is picked from `selector` (decoders must not care):
+    /// mostly everything at once, sometimes 1 byte per call or random short counts. Only for
+    /// outputs small enough (`expected_len`) that byte-wise writes stay cheap.
+    pub fn varied(selector: u64, expected_len: usize) -> Self {
+        let s = Self::new();
+        if expected_len <= (1 << 18) {
+            match selector % 7 {
+                3 => s.0.borrow_mut().short = 1,
+                5 => s.0.borrow_mut().short_rng = Some(selector | 1),
+                _ => {}
+            }
+        }
+        s
+    }
     pub fn counting_only() -> Self {
         let s = Self::new();
         s.0.borrow_mut().store = false;
